@@ -960,6 +960,29 @@ def splice_function(ft, directives, security=False):
                 # (e.g. a Vec) -> spell out the language's `IntoIterator::into_iter(EXPR)`
                 expr = '(' + expr + ')'
                 call = '.into_iter()'
+            if into == 'values_mut':
+                # R22 (unit `fanout`): `for PAT in PLACE.values_mut() { BODY }` ->
+                #   let vk_k = PLACE.vx_keys(); let mut vi_k = 0;
+                #   while vi_k < vk_k.len() { let PAT = PLACE.get_mut(&vk_k[vi_k]).unwrap(); BODY; vi_k = vi_k + 1; }
+                # values_mut() visits every entry exactly once and the key set cannot change while
+                # the map is borrowed; vx_keys() (shim) returns each key exactly once, in no
+                # particular order.  Guards: PLACE is a field path, BODY has no `continue`.
+                ex = re.sub(r'\s+', '', expr)
+                if not ex.endswith('.values_mut()'):
+                    raise Undecided('lost-anchor', 'loop %d of %s does not iterate over .values_mut()' % (k, ft.name))
+                place = ex[:-len('.values_mut()')]
+                if not re.fullmatch(r'[A-Za-z_][A-Za-z0-9_]*(\.[A-Za-z_][A-Za-z0-9_]*)*', place):
+                    raise Undecided('unsupported-construct', 'values_mut() on a non-place expression in %s' % ft.name)
+                if any(src.s(x) == 'continue' for x in range(lob, lcb)):
+                    raise Undecided('unsupported-construct', '`continue` inside a values_mut loop in %s' % ft.name)
+                new1 = 'let vk_%d = %s.vx_keys(); let mut vi_%d: usize = 0; ' % (k, place, k)
+                new2 = 'while vi_%d < vk_%d.len() ' % (k, k)
+                new3 = '{ '
+                new4 = 'let %s = %s.get_mut(&vk_%d[vi_%d]).unwrap(); ' % (pat.replace('\n', ' '), place, k, k)
+                desugared[k] = (start, src.t(lob).end, new1, new2, new3, keep_newlines(whole), new4)
+                ed.replace(src.t(lcb).pos, src.t(lcb).end, '; vi_%d = vi_%d + 1; }' % (k, k))
+                fired.append(('R22', src.line_of(start), 'for over values_mut() -> keys snapshot + get_mut (vk_%d, vi_%d)' % (k, k)))
+                continue
             new1 = 'let mut %s = %s%s; ' % (itn, expr.replace('\n', ' '), call)
             new2 = '%sloop ' % labtxt
             new3 = '{ match %s.next() { None => { break; } Some(%s) => { %s' % (itn, pat2.replace('\n', ' '), pre)
@@ -1019,8 +1042,12 @@ def splice_function(ft, directives, security=False):
         bend = lines_of(dd.get('loop_body_end', []), auxl)
         after = lines_of(dd.get('after_loop', []), auxl)
         if k in desugared:
-            a, b, new1, new2, new3, nl = desugared[k]
+            a, b, new1, new2, new3, nl = desugared[k][:6]
             seq = [(new1, {'o': 'src'})] + before + [(new2, {'o': 'src'})] + clauses + [(new3 + nl.replace('\n', ''), {'o': 'src'})] + bstart
+            if len(desugared[k]) > 6:
+                # R22: the `let PAT = PLACE.get_mut(..).unwrap();` comes AFTER the loop_body_start
+                # text (ghost snapshots must be taken before the mutable borrow starts)
+                seq = seq + [(desugared[k][6], {'o': 'src'})]
             ed.replace(a, b, '')
             add(a, seq + [('', {'o': 'nl', 'n': nl.count('\n')})], 'loop')
         else:
